@@ -744,6 +744,7 @@ direct:
 	// free package-level names used by the callee must not be shadowed at the call site
 	callerScope := j.caller.Pkg.Types.Scope().Innermost(j.call.Pos())
 	shadow := false
+	shadowName := ""
 	needImports := map[string]string{}
 	defer func() {
 		// imports are added even if a later step fails; unused imports would break the
@@ -753,6 +754,10 @@ direct:
 		_ = ni
 		o := cinfo.Uses[oi]
 		if o == nil || o.Pkg() == nil {
+			continue
+		}
+		if !isPkgName(o) && o.Pkg() != j.caller.Pkg.Types {
+			// a qualified name (tls.Client): only its package name can be shadowed
 			continue
 		}
 		if o.Parent() == o.Pkg().Scope() || isPkgName(o) {
@@ -767,11 +772,13 @@ direct:
 					fpn, ok := found.(*types.PkgName)
 					if !ok || fpn.Imported() != pn.Imported() {
 						shadow = true
+						shadowName = oi.Name
 					}
 					continue
 				}
 				if found != nil && found != o {
 					shadow = true
+					shadowName = oi.Name
 				}
 			}
 		}
@@ -790,7 +797,7 @@ direct:
 		}
 	}
 	if shadow {
-		inlineWhy = "a package-level or imported name used by the helper is shadowed (or not imported) at the call site"
+		inlineWhy = "a package-level or imported name used by the helper (" + shadowName + ") is shadowed (or not imported) at the call site"
 		return false
 	}
 	// rename locals and substitute parameters
